@@ -541,6 +541,14 @@ struct Driver {
           // an unchanged deps record is not written again: only missing counts
         }
       }
+      // "the tree is identical to a clean build": a clean build leaves no response file of a command
+      // that succeeded. A statement the stopped ninja had put on record as done, whose response file
+      // is still there after the recovery build succeeded, keeps it for good (nothing will run it again)
+      if (s.rsp && recorded && !r.plan.keeprsp && !ran2.count(x.stmt) && f.k.Exists(s.rsp_path)) {
+        w.Report("C07", "leftover_rspfile", "statement " + std::to_string(x.stmt) + " is on record as done, but the " + (crashed ? "killed" : "interrupted") + " ninja left its response file " + s.rsp_path + " behind and the next build, which succeeded, has no reason to touch it again");
+        continue;
+      }
+      if (s.rsp && recorded) rr.stats.n["recorded_rsp_statement_checked"]++;
       // K11 pattern: the statement was out of date only because an output was
       // missing; the unrecorded run re-created it and the old record still matches
       bool was_missing = false, old_record_matches = true;
@@ -1561,7 +1569,7 @@ struct Driver {
     std::vector<size_t> build_lines;
     for (size_t i = 0; i < lines.size(); i++) if (lines[i].compare(0, 6, "build ") == 0) build_lines.push_back(i);
     if (build_lines.empty()) return;
-    uint32_t v = H(9);
+    uint32_t v = H(11);
     std::string bad, what;
     const DyndepEntry* first = nullptr;
     for (auto& e : dd.entries) if (e.stmt >= 0 && w.sc.stmts[e.stmt].alive) { first = &e; break; }
@@ -1608,6 +1616,26 @@ struct Driver {
       if (pipe != std::string::npos && pipe < colon) l.insert(colon, " " + NinjaPathEscape(claim)); else l.insert(colon, " | " + NinjaPathEscape(claim));
       ls[bl] = l;
       bad = join(ls); what = "an implicit output that is already produced ('" + claim + "')";
+    } else if (v == 9 || v == 10) {   // an output that is new to the graph, named twice inside this one file
+      auto add_out = [&](std::string l, const std::string& name) {
+        size_t colon = l.find(": dyndep");
+        size_t pipe = l.find(" | ");
+        if (pipe != std::string::npos && pipe < colon) l.insert(colon, " " + name); else l.insert(colon, " | " + name);
+        return l;
+      };
+      std::vector<std::string> ls = lines;
+      std::string fresh = "fresh.out";
+      if (v == 10 && build_lines.size() >= 2) {
+        size_t a = build_lines[0], b2 = build_lines[1 + H((uint32_t)build_lines.size() - 1)];
+        ls[a] = add_out(ls[a], fresh); ls[b2] = add_out(ls[b2], fresh);
+        what = "an implicit output new to the graph that two of its statements claim";
+      } else {
+        size_t a = build_lines[H((uint32_t)build_lines.size())];
+        ls[a] = add_out(add_out(ls[a], fresh), fresh);
+        what = "an implicit output new to the graph that one statement names twice";
+      }
+      bad = join(ls);
+      rr.stats.n["invalid_dyndep_fresh_output_twice"]++;
     } else {              // an input that closes a cycle
       std::vector<std::string> ls = lines;
       size_t bl = build_lines[0];
